@@ -69,6 +69,14 @@ CHECKS.update({
    text="The harness knows the token sequence of every mutant it prints, so an independent Earley recogniser over the documented grammar plus three symbol-table rules decide ill-formedness without gocc's front end; every ill-formed mutant must be refused.",
    note="One-directional (ill-formed => non-zero exit).", ref="6 C14"),
 })
+CHECKS.update({
+ "C10": dict(cat="exploration", tech="enumerated hostile terminal spellings x generation modes: read-back token map bijection rules; compiled token packages: exhaustive lookups over all numbers, all terminal names and an unknown-name menu; lexeme scan of every string-literal terminal",
+   text="For every grammar of a corpus built around hostile terminal spellings, in default, -no_lexer and -zip mode, the emitted token map is checked to be a bijection over exactly the grammar's terminals (derived independently from the harness's own tokenization) with INVALID 0 and end-of-input 1; the compiled token package is queried exhaustively; lexer and parser tables are bound to the same numbering through the name-addressed products of C01/C02/C05.",
+   note="The pseudo symbols empty/error may occupy numbers; two known findings (terminals literally named INVALID / U+241A).", ref="6 C10"),
+ "C12": dict(cat="exploration", tech="all valid flag subsets through the generator (file-by-file byte dependence on a single flag) + compiled flag variants: table equality after init() and identical observations on exhaustive inputs",
+   text="Byte comparison over all 24 valid subsets establishes that each emitted file depends only on its own flag; the single-flag variants and a combination are then compiled and compared with the plain build: decoded tables cell by cell, every token sequence and byte string up to the bound (results, errors, positions, action calls).",
+   note="Debug output on stdout is discarded, not compared.", ref="6 C12"),
+})
 NOT_YET = {}
 
 def main():
